@@ -112,6 +112,7 @@ def expected_spy(raw):
                     out.append("POST_FIFO:%s" % r[2])
             elif op == "scribble":
                 out.append(r[2])
+            # 'current_state' leaves no line: the spied leaf state answers the reflection signal without logging
     return out
 
 
